@@ -1,5 +1,10 @@
 mod c07;
 mod c17;
+mod gen;
+mod model;
+mod stage;
+mod stories;
+mod termchecks;
 mod simio;
 mod common;
 mod engine;
@@ -9,7 +14,15 @@ mod simterm;
 use engine::{Check, Tier};
 
 fn all_checks() -> Vec<&'static dyn Check> {
-    vec![&c07::C07, &c17::C17]
+    vec![
+        &termchecks::TermCheck(termchecks::Flavor::C01),
+        &termchecks::TermCheck(termchecks::Flavor::C02),
+        &termchecks::TermCheck(termchecks::Flavor::C03),
+        &termchecks::TermCheck(termchecks::Flavor::C04),
+        &c07::C07,
+        &c17::C17,
+        &termchecks::TermCheck(termchecks::Flavor::C19),
+    ]
 }
 
 fn usage() -> ! {
